@@ -122,6 +122,26 @@ pub fn run(opts: &Opts) -> i32 {
             }
         }
     }
+    // (1c) hand-written probes for shapes outside ZCore that have gone wrong before
+    {
+        let probes: [(&str, String); 2] = [
+            ("labelled-product-in-last-position-projected", format!("{}begin\n  let T = Int64 * (inner :: (Int64 * Int64)) that\n  let v : T = (1, inner = (2, 3)) in\n  let (a, b) = v/inner in\n  ! (process/exit) b\nend\n", pipeline::prelude())),
+            ("labelled-product-in-first-position-projected", format!("{}begin\n  let T = (inner :: (Int64 * Int64)) * Int64 that\n  let v : T = (inner = (2, 3), 1) in\n  let (a, b) = v/inner in\n  ! (process/exit) b\nend\n", pipeline::prelude())),
+        ];
+        let mut session = CompilerSession::default();
+        for (name, text) in probes {
+            let path = opts.out.join(format!("probe-{name}.zy"));
+            let (class, case) = machine_case(&mut session, &path, Some(&text), b"", &[], fuel);
+            sink.count(&format!("probe_{}", class.split(':').next().unwrap_or("")));
+            if let Some((_, ans)) = case {
+                let end = ans.split(' ').next().unwrap_or("").to_string();
+                if end.starts_with("stuck:") || end.starts_with("panic:") {
+                    sink.violation("c01-accepted-program-stuck", serde_json::json!({"probe": name, "end": end, "source": text}));
+                }
+                sink.case(&format!("# probe {name}"), &end);
+            }
+        }
+    }
     // (2) generated ZCore programs: acceptance + behaviour vs the Lean model (checker + erasure +
     // machine), the real linked program on the Lean machine, and typed mutants
     generated(opts, &mut sink);
